@@ -47,6 +47,12 @@ type c10Scenario struct {
 	// EarlyReader >= 0: a body reader is obtained after that many request body
 	// operations (possibly before the body spills) and drained at the end
 	EarlyReader int `json:"early_reader"`
+	// Peek > 0: after every later body operation that many bytes are read from
+	// the early reader (a connector peeking into the body while it still arrives)
+	Peek int `json:"peek,omitempty"`
+	// Predecessor: another transaction ran first on the same WAF (its object is
+	// recycled) and lowered both body limits for itself by ctl
+	Predecessor bool `json:"predecessor,omitempty"`
 }
 
 const c10Alphabet = "abcxyz&=%+ \n\x00\xff;"
@@ -111,7 +117,11 @@ func c10Gen(t *verifrt.Tape) *c10Scenario {
 	sc.EarlyReader = -1
 	if t.Draw(3) == 0 {
 		sc.EarlyReader = t.Draw(len(sc.Req.Ops) + 1)
+		if t.Draw(2) == 0 {
+			sc.Peek = 1 + t.Draw(8)
+		}
 	}
+	sc.Predecessor = t.Draw(4) == 0
 	return sc
 }
 
@@ -145,6 +155,7 @@ SecResponseBodyMimeType text/plain
 	case 2:
 		d += "SecAction \"id:1,phase:1,pass,nolog,ctl:requestBodyProcessor=RAW\"\n"
 	}
+	d += "SecRule REQUEST_URI \"@contains lowerlimits\" \"id:3,phase:1,pass,nolog,ctl:requestBodyLimit=3,ctl:responseBodyLimit=3\"\n"
 	d += `SecRule REQUEST_BODY "@unconditionalMatch" "id:20,phase:2,pass,log"
 SecAction "id:21,phase:2,pass,log"
 SecRule INBOUND_DATA_ERROR "@eq 1" "id:22,phase:2,pass,log"
@@ -278,6 +289,22 @@ func c10Exec(sc *c10Scenario, mem int, res *RunResult, variant string) *c10Outco
 		return nil
 	}
 	defer h.Close()
+	if sc.Predecessor {
+		// limits changed by ctl belong to that transaction only
+		if p := safely(func() {
+			pt := h.WAF.NewTransactionWithID("c10-pred")
+			pt.ProcessURI("/lowerlimits", "POST", "HTTP/1.1")
+			pt.ProcessRequestHeaders()
+			pt.WriteRequestBody([]byte("ab"))
+			pt.ProcessRequestBody()
+			pt.ProcessLogging()
+			pt.Close()
+		}); p != "" {
+			res.fail("C10", "panic", "predecessor", "predecessor transaction panicked: %s", p)
+			return nil
+		}
+		res.count("predecessor_runs", 1)
+	}
 	tx := h.WAF.NewTransactionWithID("c10")
 	fp := func(side string) string {
 		a := "partial"
@@ -325,7 +352,21 @@ func c10Exec(sc *c10Scenario, mem int, res *RunResult, variant string) *c10Outco
 			}
 		}
 	}
+	var peeked []byte
+	peek := func() {
+		if early == nil || sc.Peek == 0 {
+			return
+		}
+		buf := make([]byte, sc.Peek)
+		if p := safely(func() {
+			n, _ := early.Read(buf)
+			peeked = append(peeked, buf[:n]...)
+		}); p != "" {
+			res.fail("C10", "panic", "early-reader-peek", "reading %d bytes from an early reader panicked: %s", sc.Peek, p)
+		}
+	}
 	for i, op := range sc.Req.Ops {
+		peek()
 		takeEarly(i)
 		if m.rejected {
 			break
@@ -418,7 +459,10 @@ func c10Exec(sc *c10Scenario, mem int, res *RunResult, variant string) *c10Outco
 	if early != nil && !stopped {
 		var got []byte
 		var rerr error
-		if p := safely(func() { got, rerr = drain(early, sc.Drain) }); p != "" {
+		if p := safely(func() {
+			got, rerr = drain(early, sc.Drain)
+			got = append(append([]byte(nil), peeked...), got...)
+		}); p != "" {
 			res.fail("C10", "panic", "early-reader/"+variant, "draining a reader obtained after %d body operations panicked: %s", sc.EarlyReader, p)
 			return nil
 		}
@@ -628,6 +672,6 @@ func init() {
 		Real:      []string{"coraza transaction API, BodyBuffer, body processors (urlencoded, raw), rule engine, collections"},
 		Stub:      []string{"file system (simos in-memory disk)", "body streams (scripted readers)", "clock", "random id source"},
 		Unchecked: []string{"stored length / n of the rejecting call", "anything after an injected stream error except panic-freedom and cleanup", "ctl-changed response limits"},
-		MustHit:   []string{"early_readers", "ctl_lowered_limit", "spill_happened", "req_limit_hit", "resp_limit_hit", "reject_fired", "fault_reader_error_fired"},
+		MustHit:   []string{"predecessor_runs", "early_readers", "ctl_lowered_limit", "spill_happened", "req_limit_hit", "resp_limit_hit", "reject_fired", "fault_reader_error_fired"},
 	})
 }
